@@ -260,20 +260,82 @@ fn main() {
     let oo = args.oracle_only;
     let s34 = Big::pow10(34).to_string();
 
-    // ---- fixed boundary cases (every run) ----
-    for p in PRECS {
+    // ---- deterministic sweep (every run): every precision 0..=40, fractional parts at the rounding
+    // boundaries and at the machine-word boundaries (2^31, 2^32, 2^63, 2^64, 2^127, 2^128 and +-1),
+    // integer parts {0, 1, large}, both signs ----
+    let thorough = args.tier == "thorough";
+    let one = Big::from_u64(1);
+    let words: Vec<Big> = ["2147483648", "4294967296", "9223372036854775808", "18446744073709551616",
+        "170141183460469231731687303715884105728", "340282366920938463463374607431768211456"].iter().map(|w| Big::parse(w).unwrap()).collect();
+    let large_int = Big::parse("12345678901234567890123").unwrap();
+    let mut sweep_i = 0u64;
+    for p in 0u64..=40 {
         let m = Big::pow10(p as usize);
         let half = if p == 0 { Big::zero() } else { Big::pow10(p as usize - 1).mul_small(5) };
-        let mut vals: Vec<Big> = vec![Big::zero(), Big::from_u64(1), Big::from_u64(5), m.clone(), half.clone(),
-            half.add(&Big::from_u64(1)), half.sub(&Big::from_u64(1)), m.add(&half), m.mul_small(2).add(&half), m.sub(&Big::from_u64(1)),
-            m.add(&Big::from_u64(1)), m.mul_small(7)];
-        let negs: Vec<Big> = vals.iter().map(|v| v.neg()).collect();
-        vals.extend(negs);
-        for v in &vals {
-            let ds = v.to_string();
-            for op in 0..4 { round_case(op, p, &ds, "boundary-rounding", oo); }
-            display_case(p, &ds, "boundary-display", oo);
+        let mut fr: Vec<Big> = vec![Big::zero(), one.clone(), m.divrem_small(4).0, half.sub(&one), half.clone(), half.add(&one), m.sub(&one)];
+        for w in &words { fr.push(w.sub(&one)); fr.push(w.clone()); fr.push(w.add(&one)); }
+        fr.push(words[0].clone().sub(&Big::from_u64(2))); // 2^31 - 2
+        let mut fracs: Vec<Big> = Vec::new();
+        for f in fr { if !f.is_neg() && f.lt(&m) && !fracs.contains(&f) { fracs.push(f); } }
+        for f in &fracs {
+            for (ii, ip) in [Big::zero(), one.clone(), large_int.clone()].iter().enumerate() {
+                for sign in [false, true] {
+                    let v = ip.mul(&m).add(f);
+                    let v = if sign { v.neg() } else { v };
+                    let ds = v.to_string();
+                    sweep_i += 1;
+                    // round on every value; floor/ceil/trunc, Display and comparison on a rotating third (all in thorough)
+                    round_case(0, p, &ds, "sweep-round", oo);
+                    if thorough || (sweep_i % 3) as usize == ii {
+                        for op in 1..4 { if thorough || op == 1 + sweep_i % 3 { round_case(op, p, &ds, "sweep-floor-ceil-trunc", oo); } }
+                        display_case(p, &ds, "sweep-display", oo);
+                        let nb = v.add(&Big::from_i128(if sweep_i % 2 == 0 { 1 } else { -1 })).to_string();
+                        cmp_case(p, &ds, p, &nb, "sweep-cmp-adjacent", oo);
+                    }
+                }
+            }
         }
+        // raw data values at the machine-word boundaries, whatever the precision
+        for (wi, w) in words.iter().enumerate() {
+            for d in [-1i128, 0, 1] {
+                for sign in [false, true] {
+                    if !thorough && sign != ((p + wi as u64 + (d + 1) as u64) % 2 == 0) { continue; }
+                    let v = w.add(&Big::from_i128(d));
+                    let v = if sign { v.neg() } else { v };
+                    let ds = v.to_string();
+                    sweep_i += 1;
+                    let op = if thorough { 4 } else { (sweep_i + wi as u64) % 4 };
+                    for o in 0..4 { if op == 4 || op == o { round_case(o, p, &ds, "sweep-word-data", oo); } }
+                    if thorough || sweep_i % 4 == 0 { display_case(p, &ds, "sweep-word-data-display", oo); }
+                }
+            }
+        }
+    }
+    // ---- mul / div operands whose raw values sit at the i32/u32/i64/u64/i128/u128 boundaries, and tiny
+    // operands of opposite sign (products that floor to -1, quotients that truncate to 0) ----
+    let mut bvals: Vec<Big> = vec![one.clone(), Big::from_u64(3), Big::parse("5000000000000000").unwrap(), Big::pow10(17), Big::pow10(33),
+        Big::pow10(34).sub(&one), Big::pow10(34)];
+    for w in &words { bvals.push(w.sub(&one)); bvals.push(w.clone()); bvals.push(w.add(&one)); }
+    let mut k = 0u64;
+    for a in &bvals {
+        for b in &bvals {
+            for (sa, sb) in [(false, false), (true, false), (false, true), (true, true)] {
+                k += 1;
+                // every opposite-sign pair and a rotating half of the same-sign pairs (all in thorough)
+                if !(thorough || sa != sb || k % 4 == 0) { continue; }
+                let (x, y) = (if sa { a.neg() } else { a.clone() }, if sb { b.neg() } else { b.clone() });
+                arith_case(2, &x.to_string(), &y.to_string(), "word-boundary-mul", oo);
+                if thorough || k % 2 == 1 { arith_case(3, &x.to_string(), &y.to_string(), "word-boundary-div", oo); }
+            }
+        }
+    }
+    for (a, b) in [("-3", "5000000000000000"), ("3", "-5000000000000000"), ("-1", "1"), ("1", "-9223372036854775807"), ("-9223372036854775808", "1"),
+                   ("-9223372036854775808", "9223372036854775807"), ("9223372036854775807", "-9223372036854775807"), ("-7", "1000000000000000000000000000000000"),
+                   ("-1", "9999999999999999999999999999999999"), ("-1", "10000000000000000000000000000000000"), ("-1", "10000000000000000000000000000000001")] {
+        arith_case(2, a, b, "tiny-opposite-sign-mul", oo);
+        arith_case(2, b, a, "tiny-opposite-sign-mul", oo);
+        arith_case(3, a, b, "tiny-opposite-sign-div", oo);
+        arith_case(3, b, a, "tiny-opposite-sign-div", oo);
     }
     for (a, b) in [("0", "0"), ("1", "1"), ("-1", "1"), ("1", "-1"), ("-1", "-1"), (s34.as_str(), "3"), (s34.as_str(), "-3"),
                    ("-7", s34.as_str()), ("5", "0"), ("0", "0"), ("-5", "0"), ("99999999999999999", "100000000000000000"),
